@@ -379,6 +379,29 @@ pub fn run() -> i32 {
         ctx.note("config_builder", json!({"bases": ["interactive", "default", "moderate", "sensitive"], "alphabet": OPS.iter().map(|(f, v)| format!("with_{}({})", f, v)).collect::<Vec<_>>(), "max_sequence_length": 4, "sequences_per_base": seqs.len(), "hashes": "every sequence of length <= 3 that sets the memory limit, from interactive/default, through hash_with_salt and hash (generated salt)"}));
         ctx.absorb("config-builder", st);
     }
+    // salts longer (and shorter) than the Config's salt_length handed to hash_with_salt: the salt
+    // given is the salt used, whole
+    {
+        let mut st = Stats::new();
+        for sl in [8usize, 15, 17, 24, 32, 64, 100] {
+            let salt = kval(seed ^ 0x9, 2, sl);
+            let (_, want, _) = sodium::argon2_raw(1, 8, &pwd8, &salt, 32, 2, false);
+            let (p2, s2) = (pwd8.clone(), salt.clone());
+            let r = guarded(AssertUnwindSafe(move || {
+                let cfg = Config::interactive().with_opslimit(1).with_memlimit(8192);
+                let h: PwHash<Vec<u8>, Vec<u8>> = PwHash::hash_with_salt(&p2, s2, cfg).ok()?;
+                let ok_verify = h.verify(&p2).is_ok();
+                let (hash, salt_back, _) = h.into_parts();
+                Some((hash, salt_back, ok_verify))
+            }));
+            let ok = matches!(&r, Ok(Some((h, sb, true))) if h == &want && sb == &salt) || matches!(&r, Ok(None));
+            st.eval(&("salt-vs-config", sl), true, if ok { "PwHash-object-ok" } else { "PwHash-object-wrong" });
+            if !ok {
+                st.fail(Fail { check: "C09.argon2".into(), signature: "C09/object/salt-longer-than-config".into(), what: format!("PwHash::hash_with_salt with a {}-byte salt under a Config whose salt_length is 16: hash is not argon2id over the whole salt", sl), case: json!({"kind": "reject"}) });
+            }
+        }
+        ctx.absorb("salt-vs-config-length", st);
+    }
     // the algorithm chosen by libsodium's numeric id through `From<u32>`
     {
         let mut st = Stats::new();
